@@ -936,9 +936,13 @@ def prepare_process():
     import atexit
     atexit.register(lambda: shutil.rmtree(d, ignore_errors=True))
     os.environ.setdefault('MPLBACKEND', 'Agg')
-    if '/repo' not in sys.path:
-        sys.path.insert(0, '/repo')
+    repo = os.environ.get('VERIF_REPO', '/repo')  # VERIF_REPO: run the checks against another checkout (seeded changes in scratch worktrees)
+    if repo not in sys.path:
+        sys.path.insert(0, repo)
     preload()
+    import sparseSpACE
+    if not os.path.abspath(sparseSpACE.__file__).startswith(os.path.abspath(repo)):
+        raise RuntimeError('sparseSpACE imported from %s, expected %s' % (sparseSpACE.__file__, repo))
     return d
 
 
